@@ -62,6 +62,10 @@ ASSUMPTIONS = [
     "atomicity of single set/dict/list operations under the GIL and of threading.Lock",
     "OS preemption inside C code, timeouts, sleep and GC-driven __del__ / dead WeakMethod are not modelled",
     "one thread per endpoint; a socket key is operated by its owner thread only",
+    "assigning a public property of the live socket (use_callbacks — every property of ThreadSocket with a setter is "
+    "discovered at run time) is no hub operation in the code as it is: the harness performs such assignments at "
+    "arbitrary points of the schedules, the model has no step for them; the every-line stream also explores the "
+    "connect phase (one side's whole lifetime inside the other side's connect polling)",
     "value-snapshot semantics: in the model a send carries values (send_snapshots_value); that the real sockets take "
     "the snapshot at send time is checked by the value_snapshot_histories stream (one StructuredMessage object reused "
     "and mutated by the sender, scribbling receiver); plain `send` only accepts immutable str",
